@@ -4,6 +4,7 @@ import (
 	"errors"
 	"fmt"
 	"io"
+	"sort"
 	"strings"
 
 	"github.com/remieven/ysgo"
@@ -97,6 +98,30 @@ func NewReal(srcs []string, seed string, storer variable.Storer) (r *Real, err e
 		return nil, err, ""
 	}
 	return &Real{DR: dr}, nil, ""
+}
+
+// snapshotString renders what Snapshot() returns now (current node, variables with their types, visit counts).
+func snapshotString(r *Real) (out string) {
+	defer func() {
+		if p := recover(); p != nil {
+			out = fmt.Sprint("Snapshot panicked: ", p)
+		}
+	}()
+	s := r.DR.Snapshot()
+	if s == nil {
+		return "nil"
+	}
+	var vars, visits []string
+	for k, v := range s.Variables {
+		mv, _ := FromVar(&v)
+		vars = append(vars, k+"="+mv.String())
+	}
+	for k, n := range s.VisitedNodes {
+		visits = append(visits, fmt.Sprintf("%s:%d", k, n))
+	}
+	sort.Strings(vars)
+	sort.Strings(visits)
+	return fmt.Sprintf("node %s, variables {%s}, visits {%s}", s.CurrentNode, strings.Join(vars, " "), strings.Join(visits, " "))
 }
 
 // NewRealFrom is NewReal for arbitrary readers (short reads, failing readers).
